@@ -304,3 +304,26 @@ claim(
     'polynomial normal forms for widths; dominance of sentinel guards; '
     'who-resets-what for module tables',
     'DESIGN.md §4 C16')
+
+claim(
+    'C18', 'other',
+    'Absence of the sources of run-to-run variation in the code that orders, '
+    'generates and adopts candidates, decided statically: inventory of every '
+    'set-typed value (module tables, locals, instance attributes, dict-of-'
+    'sets) with the rule that no order-sensitive consumer (iteration, '
+    'list(), tuple(), pop(), join, unpacking, sorted(key=)) touches one; '
+    'inventory of hash()/id()/getpid/get_ident/clock/random/directory-order '
+    'calls with a def-use argument that each value reaches only equality '
+    'tests, logs, statistics, time limits or the private file name; '
+    'measured run times decide no branch outside the statistics; the '
+    'sequential ddmin driver adopts in generation order and the latch rule '
+    '(C05.R1) makes the first success of a sweep the adopted one; node ids '
+    'and hashes reach neither leaf text nor sort keys, except the known '
+    'x<id>__fresh name which is reported as informational (no witness pair '
+    'of differing -j 1 runs could be produced).',
+    'Partial: byte-identity of two real runs is an experiment and is not '
+    'decided. Trusted: Python guarantees (dict insertion order, stable '
+    'sorted), CPython ast.',
+    'nondeterminism-source inventory + def-use walk to sinks (taint); '
+    'syntactic set typing; latch typestate shared with C05',
+    'DESIGN.md §4 C18')
